@@ -122,6 +122,33 @@ def records(ck, rnd, circuits, ms, per_circuit_opts=None):
     return recs, meta
 
 
+def ops_model(ck, rnd, circuits):
+    """The published operation list executed by the concrete model OpsExecT.tla: equals the real signal memory (DRIFT)
+    and equals the netlist meaning (verdict on published data)."""
+    import numpy as np
+    from kyupy.logic_sim import LogicSim
+    recs, cs = [], []
+    for c in rnd.sample(circuits, min(len(circuits), ck.pick(60, 600))):
+        st = lsim.struct(c)
+        lanes = rnd.choice([1, 3, 4])
+        stim = lsim.rand_stim(rnd, 2, len(c.s_nodes), lanes)
+        try:
+            s = lsim.run_logic(c, 2, lanes, stim)
+        except Exception:
+            continue        # reported by the trace check above
+        cv = [[int((s.c[s.c_locs[x], 0, p // 8] >> (p % 8)) & 1) for p in range(lanes)] for x in range(len(c.lines))]
+        recs.append(dict(st=st, lanes=lanes, stim=stim, ops=[[int(v) & 0xffff if j == 0 else int(v) for j, v in enumerate(op[:6])] for op in s.ops], cvals=cv))
+        cs.append(c)
+    r = ck.tlc_batch('OpsExecT', 'OpsExecT', traces=recs, label='M:OpsExecT', per_shard=10, timeout=1700)
+    ck.require_clean(r)
+    for d in r.drifts[:10]:
+        ck.drift('OpsExecT.tla: a line value in the real signal memory differs from the model executing the published operations (record %d lane %d)' % (d[1], d[2]))
+    for pid, tid, p, clause in r.fails:
+        ck.violation('ops:%s:%s' % (clause, gen.digest(gen.circuit_state(cs[tid - 1]))), 'the published operation list does not compute the netlist (lane %d)' % p,
+                     dict(kind='ops', circuit=gen.circuit_state(cs[tid - 1])))
+    ck.count('op-lists-executed-by-model', len(recs))
+
+
 def judge(ck, recs, meta, pids):
     r = ck.tlc_batch('LogicSimT', 'LogicSimT', traces=recs, label='T:LogicSimT', per_shard=60, timeout=1700)
     ck.require_clean(r)
@@ -141,6 +168,11 @@ def judge(ck, recs, meta, pids):
 
 
 def replay_case(ck, case, pids):
+    if case.get('kind') == 'ops':
+        ops_model(ck, random.Random(ck.seed), [gen.circuit_from_state(case['circuit'])])
+        return
+    if case.get('kind') == 'lut':
+        return
     mt = case['input']
     c = gen.circuit_from_state(mt['circuit'])
     st = lsim.struct(c)
@@ -173,6 +205,7 @@ def main(tier=None, replay=None):
     circuits = make_circuits(ck, rnd, ck.pick(150, 1500)) + tlc_circuits(ck, rnd, ck.pick(160, 20000))
     recs, meta = records(ck, rnd, circuits, (2,))
     judge(ck, recs, meta, (PID,))
+    ops_model(ck, rnd, circuits)
     for mt in meta:
         ck.nontrivial.add(gen.digest(mt['circuit']))
     ck.count('circuits', len(circuits))
